@@ -58,23 +58,24 @@ Lemma nonadapter_stage o st r i :
   wf_read r' /\ (sub_read (fun q => q) r' r \/ (st = StZeroCap /\ sub_read (capf (o_qbase o)) r' r)).
 Proof.
   intros Hst Hwf. cbn zeta.
-  destruct st; cbn [apply_stage fst]; try contradiction.
-  - destruct (0 <? n); cbn [fst]; (split; [apply wf_rslice; assumption | left; apply rslice_sub_read; assumption]).
-  - split; [apply wf_rslice; assumption | left; apply rslice_sub_read; assumption].
-  - destruct (quality_trim_index (qual_or_empty r) cf cb (o_qbase o)) as [a b]. cbn [fst].
-    split; [apply wf_rslice; assumption | left; apply rslice_sub_read; assumption].
-  - split; [apply wf_rslice; assumption | left; apply rslice_sub_read; assumption].
-  - destruct (0 <=? n); cbn [fst]; (split; [apply wf_rslice; assumption | left; apply rslice_sub_read; assumption]).
-  - split; [apply wf_rslice; assumption | left; apply rslice_sub_read; assumption].
-  - unfold length_tag_mod. split; [exact Hwf | left; apply (sub_read_name _ r r); apply sub_read_refl].
-  - split; [exact Hwf | left; apply (sub_read_name _ r r); apply sub_read_refl].
-  - split; [exact Hwf | left; apply (sub_read_name _ r r); apply sub_read_refl].
-  - unfold zero_cap. split.
-    + unfold wf_read in *; cbn [rqual rseq]. destruct (rqual r); cbn [option_map]; [rewrite zlen_map; exact Hwf | exact I].
-    + right. split; [reflexivity|].
-      exists 0%nat, (length (rseq r) + match rqual r with Some q => length q | None => 0 end)%nat. unfold sub; cbn [skipn rseq rqual]. split.
-      * symmetry. apply firstn_all2. lia.
-      * destruct (rqual r) as [q|]; cbn [option_map]; [|reflexivity]. f_equal. f_equal. symmetry. apply firstn_all2. lia.
+  assert (Hsl : forall lo hi, wf_read (rslice lo hi r) /\ (sub_read (fun q => q) (rslice lo hi r) r \/
+                 (st = StZeroCap /\ sub_read (capf (o_qbase o)) (rslice lo hi r) r))).
+  { intros lo hi. split; [apply wf_rslice; assumption | left; apply rslice_sub_read; assumption]. }
+  assert (Hnm : forall n, wf_read (mkR n (rseq r) (rqual r)) /\ (sub_read (fun q => q) (mkR n (rseq r) (rqual r)) r \/
+                 (st = StZeroCap /\ sub_read (capf (o_qbase o)) (mkR n (rseq r) (rqual r)) r))).
+  { intros n. split; [exact Hwf | left; apply (sub_read_name _ r r); apply sub_read_refl]. }
+  destruct st; cbn [apply_stage]; try contradiction.
+  all: try (match goal with |- context [quality_trim_index ?a ?b ?c ?d] => destruct (quality_trim_index a b c d) end).
+  all: repeat match goal with |- context [if ?c then _ else _] => destruct c end; cbn [fst].
+  all: try apply Hsl.
+  all: try (unfold length_tag_mod; apply Hnm).
+  (* zero-cap *)
+  unfold zero_cap. split.
+  - unfold wf_read in *; cbn [rqual rseq]. destruct (rqual r); cbn [option_map]; [rewrite zlen_map; exact Hwf | exact I].
+  - right. split; [reflexivity|].
+    exists 0%nat, (length (rseq r) + match rqual r with Some q => length q | None => 0 end)%nat. unfold sub; cbn [skipn rseq rqual]. split.
+    + symmetry. apply firstn_all2. lia.
+    + destruct (rqual r) as [q|]; cbn [option_map]; [|reflexivity]. f_equal. f_equal. symmetry. apply firstn_all2. lia.
 Qed.
 
 (** zero-capping only changes quality characters below the base, to the base *)
@@ -127,11 +128,11 @@ Lemma absent_option_no_stage o :
   (o_nextseq o = None -> stages_of_kind o KNextseq = []) /\
   (o_qcut o = None -> stages_of_kind o KQual = []) /\
   (o_adapters o = [] -> stages_of_kind o KAdapters = []) /\
-  (o_poly_a o = false -> stages_of_kind o KPolyA = []) /\
+  (o_poly_a o = false -> o_poly_t o = false -> stages_of_kind o KPolyA = []) /\
   (o_length o = None -> stages_of_kind o KLength = []) /\
   (o_trim_n o = false -> stages_of_kind o KTrimN = []) /\
   (o_zero_cap o = false -> stages_of_kind o KZeroCap = []).
-Proof. repeat split; intros H; cbn [stages_of_kind]; rewrite H; reflexivity. Qed.
+Proof. repeat split; intros H; try intros H'; cbn [stages_of_kind]; rewrite H; try rewrite H'; reflexivity. Qed.
 
 (** ---- the whole chain (C03_slice) *)
 (** pointwise quality maps that leave a value alone or raise a value below [base] to [base] *)
@@ -232,7 +233,7 @@ Proof.
   all: try (destruct (o_nextseq o); cbn in Hk; intuition discriminate).
   all: try (destruct (o_qcut o) as [[? ?]|]; cbn in Hk; intuition discriminate).
   all: try (destruct (o_adapters o); cbn in Hk; intuition discriminate).
-  all: try (destruct (o_poly_a o); cbn in Hk; intuition discriminate).
+  all: try (destruct (o_poly_a o), (o_poly_t o); cbn in Hk; intuition discriminate).
   all: try (destruct (o_length o); cbn in Hk; intuition discriminate).
   all: try (destruct (o_trim_n o); cbn in Hk; intuition discriminate).
   all: try (destruct (o_length_tag o); cbn in Hk; intuition discriminate).
